@@ -33,6 +33,22 @@ CHECKS = {
         "applications obey ASGI; in-memory transport models; 'only if' direction for trailers",
         "DESIGN.md §4 C02",
     ),
+    "C05": (
+        "fault_enumeration",
+        "Hypothesis-generated application programs with the crash point enumerated over every "
+        "op index x {raise, raise ExceptionGroup, return, cancel} x protocol contexts on both "
+        "workers; oracle = independent client parse (own HTTP/1 parser, own HTTP/2 frame "
+        "accounting, own WebSocket frame parser) + log and witness checks",
+        "For HTTP/1.1 (with a pipelined follower), HTTP/1.0 with a length, concurrent HTTP/2 "
+        "streams and WebSocket on both carriers: a failure before the response started yields a "
+        "complete 500; after it started the client sees a truncated response and a closed "
+        "connection (HTTP/1) or RST_STREAM without END_STREAM (HTTP/2), never a complete one; "
+        "after completion the response is intact; raising applications are logged once; sibling "
+        "streams, a later stream and a later connection are served.",
+        "HTTP/1.0 without a length and crashes after all declared bytes were delivered are "
+        "outside the domain",
+        "DESIGN.md §4 C05",
+    ),
     "C06": (
         "exploration",
         "Hypothesis-generated HTTP/1.x pipelines x segmentations x per-request application "
